@@ -27,10 +27,11 @@ pub trait Latch<P>: Deref<Target = P> {}
 impl<P> ReadLatch<P> {
     pub(crate) fn new(lock: &Arc<RwLock<P>>) -> Self {
         #[cfg(feature = "verif")]
-        crate::verif::sched::block_until_on(
+        crate::verif::sched::block_until_shared(
             crate::verif::sched::site::READ_LATCH,
             Arc::as_ptr(lock) as usize,
             || !lock.is_locked_exclusive(),
+            || lock.is_locked() && !lock.is_locked_exclusive(),
         );
         // A thread may latch a page it already holds for reading (a scan keeps its current leaf
         // latched and reads each row through a fresh accessor). A plain read would queue behind a
@@ -173,10 +174,11 @@ where
         F: FnOnce(&[u8]) -> R,
     {
         #[cfg(feature = "verif")]
-        crate::verif::sched::block_until_on(
+        crate::verif::sched::block_until_shared(
             crate::verif::sched::site::FRAME_BYTES,
             Arc::as_ptr(&self.inner) as usize,
             || !self.inner.is_locked_exclusive(),
+            || self.inner.is_locked() && !self.inner.is_locked_exclusive(),
         );
         let latch = self.inner.read_recursive();
         f(latch.as_ref())
